@@ -63,7 +63,17 @@ func discharge(obls []*Oblig, workers int) {
 				if o.Res != nil {
 					continue
 				}
-				o.Res = Solve(o.query(), quickSec, totalSec)
+				q, t := quickSec, totalSec
+				if o.Cover && !o.Soft {
+					// vacuity guards get the full budget even when the claimed obligations are capped
+					if q < 5 {
+						q = 5
+					}
+					if t < 15 {
+						t = 15
+					}
+				}
+				o.Res = Solve(o.query(), q, t)
 			}
 		}()
 	}
